@@ -447,6 +447,15 @@ def _run(run):
                 run.oracle_violation("read-above-cap", dict(case, log=st.log[:20]), site)
             if res[0] == 0 and not closed_over(value, classes):
                 run.oracle_violation("result-not-closed", dict(case, value=repr(value)[:200]), site)
+            if dt > 0.5 + 2e-5 * n:
+                # a garbage collection of the harness's own millions of objects can land in one measurement: repeat it
+                for _ in range(3):
+                    t1 = time.perf_counter()
+                    try:
+                        decode_limited(frames, data, reg)
+                    except BaseException:      # noqa
+                        pass
+                    dt = min(dt, time.perf_counter() - t1)
             if dt > 2.0 + 2e-5 * n:
                 run.oracle_violation("slow-decode", dict(case, seconds=round(dt, 3)), site)
             maxima["time_abs"] = max(maxima["time_abs"], dt)
